@@ -181,10 +181,13 @@ func (t *TargetsManager) doCallbacks() error {
 
 func (t *TargetsManager) saveTargets() error {
 	data, _ := json.Marshal(&t.targets)
-	if err := ioutil.WriteFile(t.storePath(), data, 0755); err != nil {
+	// write to a temp file and rename it, a crash or a failed write
+	// must not leave a truncated store file behind
+	tmp := t.storePath() + ".tmp"
+	if err := ioutil.WriteFile(tmp, data, 0755); err != nil {
 		return err
 	}
-	return nil
+	return os.Rename(tmp, t.storePath())
 }
 
 func (t *TargetsManager) storePath() string {
